@@ -438,6 +438,8 @@ fn text_case(src: &str, run: bool) -> Value {
                 Err(e) => {
                     phase("run-error-display");
                     let _ = e.to_string();
+                    let _ = format!("{e:#}");
+                    let _ = format!("{e:?}");
                     notes.insert("run".into(), json!(error_class(&e)));
                 }
             }
